@@ -1,5 +1,5 @@
 """Rule registry: name -> callable(ctx, prop) -> RuleResult | [RuleResult]."""
-from . import trav, exh, backend, names, fields, compiler, memory, purity, determinism, patterns, unify, provenance
+from . import trav, exh, backend, names, fields, compiler, memory, purity, determinism, patterns, unify, provenance, simplify
 
 
 def _trav_scoped(classes, name):
@@ -20,6 +20,7 @@ RULES = {
     "TRAV": trav.rule_trav,
     "TRAV@C09": _trav_scoped(TRAV_C09, "TRAV"),
     "TRAV@C15": _trav_scoped(TRAV_C15, "TRAV"),
+    "TRAV@C12": _trav_scoped(["DoSimplify", "_DoNormalize"], "TRAV"),
     "TRAV@C05": _trav_scoped(["_Find_Mod_Div_Symbols"], "TRAV"),
     "TRAVBASE": trav.rule_travbase,
     "BYPASS": trav.rule_bypass,
@@ -52,6 +53,8 @@ RULES = {
     "REPLSCOPE": unify.rule_replscope,
     "CALLPRED": unify.rule_callpred,
     "HOLESIB": unify.rule_holesib,
+    "NAMECONF": simplify.rule_nameconf,
+    "DELGUARD": simplify.rule_delguard,
     "CFGMOD": provenance.rule_cfgmod,
     "EQVGATE": provenance.rule_eqvgate,
     "UFOWN": provenance.rule_ufown,
